@@ -253,6 +253,7 @@ type fn struct {
 	ret      *typ
 	rets     []*typ   // kMulti
 	resNames []string // named results (extended mode): zero-initialised locals
+	errRes   bool     // hash mode (slpperm.go): the only result is `error`; every reachable return must be `return nil`
 	err      string
 }
 
@@ -299,6 +300,8 @@ type pkgCtx struct {
 	relOf      map[*ast.File]string // path relative to cfg.dir
 	iconsts    map[string]int64     // integer constants of the package (extended mode)
 	topFrom    int                  // fft mode: p.order[topFrom:] goes to <Pkg>Top.lean (0 = no second file)
+	rowCache   map[string][]int     // slpperm.go: row lengths of the round-key table per (width, rf, rp)
+	fastSeen   map[string]bool      // slpperm.go: fast-path flags read (and taken to be false) by a translated Permutation
 }
 
 type variant struct {
@@ -877,7 +880,9 @@ func (p *pkgCtx) addFunc(f *ast.File, inBase bool, d *ast.FuncDecl) {
 			fnv.pos = append(fnv.pos, &qq)
 		}
 	}
-	if r := d.Type.Results; r != nil && p.cfg.ext != "" && p.extResults(f, inBase, fnv, r) {
+	if r := d.Type.Results; r != nil && p.cfg.ext == "hash" && len(fnv.pos) > 0 && fnv.pos[0].spec && len(r.List) == 1 && len(r.List[0].Names) == 0 && exprStr(r.List[0].Type) == "error" {
+		fnv.errRes = true // a procedure; slpperm.go
+	} else if r := d.Type.Results; r != nil && p.cfg.ext != "" && p.extResults(f, inBase, fnv, r) {
 		// handled by slpx.go (flag / several values / named results)
 	} else if r != nil {
 		if len(r.List) != 1 || len(r.List[0].Names) > 1 {
@@ -1758,6 +1763,7 @@ func (x *tr) callFn(s *state, f *fn, owner *pkgCtx, key string, recv *loc, c *as
 	vals := make([]string, len(f.pos))
 	pvMark := len(x.pviews)
 	var sp *spec
+	roundArg := ""
 	if x.p.cfg.ext != "" {
 		sp = newSpec()
 		if x.v.spec != nil {
@@ -1780,7 +1786,12 @@ func (x *tr) callFn(s *state, f *fn, owner *pkgCtx, key string, recv *loc, c *as
 			ai++
 		case q.isInt && sp != nil:
 			if n, ok := x.evalInt(s, args[ai]); ok {
-				sp.ints[i] = n
+				if row, k, is := x.roundRow(f, q, n); is {
+					// slpperm.go: the parameter only selects the round-key row; the callee keeps it opaque and receives the row
+					sp.opaque[i], sp.rowLen, roundArg = true, k, row
+				} else {
+					sp.ints[i] = n
+				}
 			} else {
 				sp.opaque[i] = true
 			}
@@ -1914,6 +1925,12 @@ func (x *tr) callFn(s *state, f *fn, owner *pkgCtx, key string, recv *loc, c *as
 		}
 	}
 	for _, g := range cv.gparams {
+		if g == "spec:roundKey" && roundArg != "" {
+			x.gp["spec:rc"] = true
+			x.v.sparams["rc"] = rcT
+			parts = append(parts, roundArg)
+			continue
+		}
 		if strings.HasPrefix(g, "spec:") {
 			x.gp[g] = true
 			parts = append(parts, g[5:])
@@ -2329,6 +2346,15 @@ func (x *tr) ret(s *state, st *ast.ReturnStmt) {
 	f := x.v.f
 	var first string
 	switch {
+	case f.errRes:
+		// the error result: only `return nil` may be reachable (the def has no error component; the theorem states when the
+		// Go function returns an error, from the conditions the translator decided)
+		if st == nil || len(st.Results) != 1 {
+			reject("missing return value")
+		}
+		if id, ok := st.Results[0].(*ast.Ident); !ok || id.Name != "nil" || s.cells["nil"] != nil {
+			reject("reaches return %s (an error)", exprStr(st.Results[0]))
+		}
 	case st == nil || len(st.Results) == 0:
 		if f.decl.Type.Results != nil {
 			reject("missing return value")
